@@ -31,6 +31,11 @@ type C12Opts struct {
 	// augments the unwritten input/output of the different instantiations from different modules:
 	// every instantiation must have input/output nodes of its own.
 	SharedAction bool
+	// TwinNS gives two (sometimes three) modules namespaces that are near twins (letter case,
+	// trailing slash or blank, one a prefix of the other, percent-encoding, Unicode case folding) and
+	// makes each of them place nodes in its own tree, through a grouping of the other one, and by
+	// augments into a third module.
+	TwinNS bool
 }
 
 // C12Expect is what the oracle expects of one node.
@@ -83,16 +88,18 @@ func (x *xnode) add(name, kw string, by *Module) *xnode {
 }
 
 type c12gen struct {
-	r      *rand.Rand
-	opt    C12Opts
-	set    *Set
-	gseq   int
-	aseq   int
-	gInfo  map[*Node]*gmeta // per grouping
-	trees  map[*Module]*xnode
-	feat   map[string]int
-	broken bool // an expansion met a name collision: the set is not used for expectations
-	inner  []*Module // submodules that another submodule includes
+	r           *rand.Rand
+	opt         C12Opts
+	set         *Set
+	gseq        int
+	aseq        int
+	gInfo       map[*Node]*gmeta // per grouping
+	trees       map[*Module]*xnode
+	feat        map[string]int
+	broken      bool      // an expansion met a name collision: the set is not used for expectations
+	inner       []*Module // submodules that another submodule includes
+	twins       []*Module // modules with near-twin namespaces
+	forceTarget *Module   // when set, augment() targets this module
 }
 
 type gmeta struct {
@@ -119,7 +126,7 @@ func ownerOf(m *Module) *Module {
 func GenerateC12(r *rand.Rand, opt C12Opts) *C12Set {
 	g := &c12gen{r: r, opt: opt, set: &Set{}, gInfo: map[*Node]*gmeta{}, trees: map[*Module]*xnode{}, feat: map[string]int{}}
 	nm := 1 + r.Intn(4)
-	if opt.SharedAction && nm < 3 {
+	if (opt.SharedAction || opt.TwinNS) && nm < 3 {
 		nm = 3
 	}
 	names := []string{"a", "b", "c", "d"}
@@ -131,6 +138,22 @@ func GenerateC12(r *rand.Rand, opt C12Opts) *C12Set {
 		}
 		m.Body = &Node{Kw: "module", Arg: m.Name}
 		mods = append(mods, m)
+	}
+	if opt.TwinNS {
+		// before the submodules are made: they carry their owner's namespace
+		fam := c12Twins[r.Intn(len(c12Twins))]
+		perm := r.Perm(len(mods))
+		vp := r.Perm(len(fam))
+		k := 2
+		if len(mods) >= 4 && g.chance(0.4) {
+			k = 3
+		}
+		for i := 0; i < k; i++ {
+			mods[perm[i]].Namespace = fam[vp[i]]
+			g.twins = append(g.twins, mods[perm[i]])
+		}
+		g.forceTarget = mods[perm[k]] // a module with an ordinary namespace
+		g.feat["twin_namespace_sets"]++
 	}
 	for _, m := range mods {
 		for _, o := range mods {
@@ -220,6 +243,7 @@ func GenerateC12(r *rand.Rand, opt C12Opts) *C12Set {
 			g.fill(m, n, 1, true, nil, false)
 		}
 	}
+	g.plantTwins()
 	var shared []sharedInst
 	if opt.SharedAction {
 		shared = g.plantSharedAction(mods)
@@ -251,6 +275,17 @@ func GenerateC12(r *rand.Rand, opt C12Opts) *C12Set {
 	}
 	// augments (applied to the expected trees as they are generated, so chains are possible)
 	g.augmentShared(shared, mods)
+	// each near-twin module grafts nodes into a third module
+	if t := g.forceTarget; t != nil {
+		for _, m := range g.twins {
+			g.ensureImport(m, t)
+			g.augment(m, mods, true)
+			if g.chance(0.5) {
+				g.augment(m, mods, true)
+			}
+		}
+		g.forceTarget = nil
+	}
 	for round := 0; round < 2; round++ {
 		for _, m := range order {
 			if g.chance(0.55) {
@@ -283,6 +318,42 @@ func GenerateC12(r *rand.Rand, opt C12Opts) *C12Set {
 		g.emit(out.Expect, m.fullName(), "", root, nil)
 	}
 	return out
+}
+
+// c12Twins: families of namespaces that are different strings but near twins.
+var c12Twins = [][]string{
+	{"urn:nt:Vendor", "urn:nt:vendor", "URN:NT:VENDOR"},
+	{"urn:nt:x", "urn:nt:x/", "urn:nt:x "},
+	{"urn:nt:x", "urn:nt:x:y", "urn:nt:x:"},
+	{"urn:nt:a%2Fb", "urn:nt:a%2fb", "urn:nt:a/b"},
+	{"urn:nt:K", "urn:nt:\u212a", "urn:nt:k"},
+	{"http://Example.com/ns/m", "http://example.com/ns/m", "http://example.com/ns/M"},
+}
+
+// plantTwins: every near-twin module gets a grouping and a container that uses the grouping of the
+// next one (so each instantiates nodes the other one defines).
+func (g *c12gen) plantTwins() {
+	var grs []*Node
+	for _, m := range g.twins {
+		g.gseq++
+		gr := &Node{Kw: "grouping", Arg: fmt.Sprintf("g%d", g.gseq)}
+		g.gInfo[gr] = &gmeta{owner: m, top: true}
+		gr.add("leaf", "twl").add("type", "string")
+		c := gr.add("container", "twc")
+		c.add("leaf", "twd").add("type", "string")
+		g.finishGrouping(gr)
+		m.Groupings = append(m.Groupings, gr)
+		m.Body.Kids = append(m.Body.Kids, gr)
+		grs = append(grs, gr)
+	}
+	for i, m := range g.twins {
+		j := (i + 1) % len(g.twins)
+		o := g.twins[j]
+		g.ensureImport(m, o)
+		c := m.Body.add("container", "twuse")
+		u := c.add("uses", m.ImportPrefix[o]+":"+grs[j].Arg)
+		u.Uses = grs[j]
+	}
 }
 
 // sharedInst is one instantiation of the planted grouping: the module whose tree holds it and the
@@ -776,6 +847,13 @@ func (g *c12gen) augment(a *Module, mods []*Module, foreign bool) {
 		cands = []*Module{o}
 	}
 	t := cands[g.r.Intn(len(cands))]
+	if g.forceTarget != nil && ownerOf(a) != g.forceTarget {
+		for _, o := range a.Imports {
+			if o == g.forceTarget {
+				t = o
+			}
+		}
+	}
 	pfx := a.Prefix
 	if p, ok := a.ImportPrefix[t]; ok && t != ownerOf(a) {
 		pfx = p
